@@ -489,7 +489,10 @@ func (r *runner) steps(c hconn) {
 				}
 			}
 		case "sleep":
-			time.Sleep(time.Duration(s.D))
+			// (warm-up / companion calls skip pauses as they skip the panic)
+			if r.call.ReqHeader.Get("X-Verif-No-Panic") == "" {
+				time.Sleep(time.Duration(s.D))
+			}
 		case "trailer":
 			if r.rt != nil && s.KV != nil {
 				r.rt.Add(s.KV.K, s.KV.V)
